@@ -78,6 +78,13 @@ func derivesFrom(v ssa.Value, m VM, stop map[string]bool) bool {
 							return true
 						}
 					}
+				case *ssa.FieldAddr:
+					// a field of a struct built here (&notFoundError{typ: t})
+					for _, rr := range referrers(y) {
+						if st, ok := rr.(*ssa.Store); ok && st.Addr == ssa.Value(y) && rec(st.Val, d+1) {
+							return true
+						}
+					}
 				}
 			}
 		}
@@ -111,7 +118,7 @@ func checkC02(c *Check) {
 		for _, fn := range p.Funcs() {
 			if fn.Pkg == p.SSA["route"] && fn.Parent() == nil {
 				for _, ci := range callsNamed(fn, "regexp.Compile", "regexp.MustCompile") {
-					if vCall("(*bytes.Buffer).String")(ci.Common().Args[0]) {
+					if vCall("(*bytes.Buffer).String")(ci.Common().Args[0]) || vCall("(*strings.Builder).String")(ci.Common().Args[0]) {
 						cons = fn
 					}
 				}
@@ -394,7 +401,7 @@ func checkRegexConstructor(c *Check, cons *ssa.Function) {
 	var compile ssa.CallInstruction
 	var buf ssa.Value
 	for _, ci := range callsNamed(cons, "regexp.Compile", "regexp.MustCompile") {
-		if s := asCall(ci.Common().Args[0]); s != nil && callName(&s.Call) == "(*bytes.Buffer).String" {
+		if s := asCall(ci.Common().Args[0]); s != nil && (callName(&s.Call) == "(*bytes.Buffer).String" || callName(&s.Call) == "(*strings.Builder).String") {
 			compile = ci
 			buf = strip(s.Call.Args[0])
 		}
@@ -406,7 +413,7 @@ func checkRegexConstructor(c *Check, cons *ssa.Function) {
 	}
 	isWrite := func(in ssa.Instruction) bool {
 		ci, ok := in.(ssa.CallInstruction)
-		return ok && strings.HasPrefix(callName(ci.Common()), "(*bytes.Buffer).Write") && strip(ci.Common().Args[0]) == buf
+		return ok && (strings.HasPrefix(callName(ci.Common()), "(*bytes.Buffer).Write") || strings.HasPrefix(callName(ci.Common()), "(*strings.Builder).Write")) && strip(ci.Common().Args[0]) == buf
 	}
 	// R1 taint
 	c.curRule = "C02.R1"
@@ -442,13 +449,13 @@ func checkRegexConstructor(c *Check, cons *ssa.Function) {
 	// R2 anchors
 	c.curRule = "C02.R2"
 	startOK := false
-	if init := asCall(buf); init != nil && callName(&init.Call) == "bytes.NewBufferString" && vConstStr("^")(init.Call.Args[0]) {
+	if init := asCall(buf); init != nil && callName(&init.Call) == "bytes.NewBufferString" && vConstText("^")(init.Call.Args[0]) {
 		startOK = true
 	} else {
 		// first write on every path is "^"
 		var firsts []ssa.Instruction
 		allInstrs(cons, func(in ssa.Instruction) {
-			if isWrite(in) && vConstStr("^")(in.(ssa.CallInstruction).Common().Args[1]) {
+			if isWrite(in) && vConstText("^")(in.(ssa.CallInstruction).Common().Args[1]) {
 				firsts = append(firsts, in)
 			}
 		})
@@ -460,7 +467,7 @@ func checkRegexConstructor(c *Check, cons *ssa.Function) {
 	c.Cond(startOK, key+":anchor-start", p.Pos(compile.Pos()), "pattern begins with the constant ^", "the compiled pattern does not begin with ^: a segment is accepted when only a suffix matches")
 	var dollars []ssa.Instruction
 	allInstrs(cons, func(in ssa.Instruction) {
-		if isWrite(in) && vConstStr("$")(in.(ssa.CallInstruction).Common().Args[1]) {
+		if isWrite(in) && vConstText("$")(in.(ssa.CallInstruction).Common().Args[1]) {
 			dollars = append(dollars, in)
 		}
 	})
@@ -526,9 +533,9 @@ func checkRegexConstructor(c *Check, cons *ssa.Function) {
 				break
 			}
 		}
-		ok := prev != nil && next != nil && vConstStr("(")(prev.(ssa.CallInstruction).Common().Args[1]) && vConstStr(")")(next.(ssa.CallInstruction).Common().Args[1])
+		ok := prev != nil && next != nil && vConstText("(")(prev.(ssa.CallInstruction).Common().Args[1]) && vConstText(")")(next.(ssa.CallInstruction).Common().Args[1])
 		// or written in one call: "(" + expr + ")"
-		if parts := concatParts(arg); len(parts) == 3 && vConstStr("(")(parts[0]) && vConstStr(")")(parts[2]) && derivesFrom(parts[1], vFieldNamed("Regex"), nil) {
+		if parts := concatParts(arg); len(parts) == 3 && vConstText("(")(parts[0]) && vConstText(")")(parts[2]) && derivesFrom(parts[1], vFieldNamed("Regex"), nil) {
 			ok = true
 		}
 		c.Cond(ok, key+":wrapper-group", p.Pos(in.Pos()), "user expression written as ( expr )", "a user expression is not wrapped in exactly one capturing group")
@@ -645,5 +652,21 @@ func checkRegexPairing(c *Check) {
 			good, why = false, "unexpected sub-match index "+vstr(l)
 		})
 		c.Cond(good && nLeaves > 0, key, p.Pos(mu.Pos()), "params[binds[i]] = submatches[groups[i]] (i+1 only when groups == nil)", "bind values are paired with the wrong sub-match: "+why)
+	}
+}
+
+// vConstText matches the constant text s, written as a string or — for one character — as the byte or
+// rune handed to WriteByte / WriteRune.
+func vConstText(s string) VM {
+	return func(v ssa.Value) bool {
+		if vConstStr(s)(v) {
+			return true
+		}
+		if len(s) == 1 {
+			if k, ok := constInt(v); ok && k == int64(s[0]) {
+				return true
+			}
+		}
+		return false
 	}
 }
